@@ -13,6 +13,7 @@ type DispatchProfile struct {
 	Egress     bool
 	Sign       bool
 	Interleave bool
+	Batchy     bool // single-target routes with concurrency > 1 (micro-batches), slow and hanging targets
 	Backends   []string
 }
 
@@ -196,11 +197,43 @@ func GenDispatchProgram(t *rapid.T, prof DispatchProfile) *Program {
 		spec.Routes[0].Concurrency = 1
 		sys.Scripts["t0.example"] = []NetAction{{Kind: "status", Status: rapid.SampledFrom([]int{503, 500, 429, 408}).Draw(t, "sticky")}}
 	}
+	batchy := prof.Batchy || (!prof.Egress && rapid.IntRange(0, 7).Draw(t, "batchy?") == 0)
+	if batchy {
+		// micro-batches: one target, several workers, a target that is slow or
+		// hangs to the deadline again and again
+		spec.Routes = spec.Routes[:1]
+		spec.Routes[0].Deliver = spec.Routes[0].Deliver[:1]
+		spec.Routes[0].Concurrency = rapid.IntRange(2, 6).Draw(t, "bconc")
+		host := "t0.example"
+		if u := spec.Routes[0].Deliver[0].URL; strings.Contains(u, "://") {
+			host = strings.ToLower(strings.SplitN(strings.SplitN(u, "://", 2)[1], "/", 2)[0])
+		}
+		n := rapid.IntRange(2, 8).Draw(t, "bscript")
+		var sc []NetAction
+		for i := 0; i < n; i++ {
+			switch rapid.IntRange(0, 5).Draw(t, "bact") {
+			case 0, 1, 2:
+				sc = append(sc, NetAction{Kind: "hang", Delay: timeout})
+			case 3:
+				sc = append(sc, NetAction{Kind: "status", Status: 200, Delay: timeout - time.Second})
+			case 4:
+				sc = append(sc, NetAction{Kind: "status", Status: rapid.SampledFrom([]int{200, 503, 429, 400}).Draw(t, "bstatus")})
+			default:
+				sc = append(sc, NetAction{Kind: "status", Status: 200})
+			}
+		}
+		sys.Scripts[host] = sc
+	}
 	p.Sys, _ = json.Marshal(sys)
 	p.Offset = rapid.SampledFrom([]int64{0, 500_000_000}).Draw(t, "clock_offset")
 	advances := []time.Duration{100 * time.Millisecond, 500 * time.Millisecond, time.Second, 2 * time.Second, 4 * time.Second, 30 * time.Second, 29 * time.Minute, 30 * time.Minute, 59 * time.Minute, time.Hour, 61 * time.Minute}
 	n := rapid.IntRange(2, 25).Draw(t, "nsteps")
 	p.Steps = append(p.Steps, Step{Op: "publish", Batch: 0})
+	if batchy {
+		for i := rapid.IntRange(2, 8).Draw(t, "bpub"); i > 0; i-- {
+			p.Steps = append(p.Steps, Step{Op: "publish", Batch: 0})
+		}
+	}
 	for i := 0; i < n; i++ {
 		k := rapid.IntRange(0, 19).Draw(t, "kind")
 		switch {
@@ -249,6 +282,8 @@ func init() {
 		"generated egress policies (https_only, redirects, rebind protection, allow/deny with exact/*/*.domain/CIDR) x target and redirect URLs (schemes, userinfo, ports, IP literals incl. v6 and v4-mapped, trailing dots, case) x resolver answers (private/public mixes, answers changing between lookups, failures); oracle: independent policy predicate over every request that reached simnet including each redirect hop, under the answers the resolver gave for that check; denied delivery sent nothing and is dead as policy_denied", 1200, 50000)
 	reg("C17", DispatchProfile{Backends: both, Sign: true},
 		"push part: signed targets with inline secret or secret_ref versions (overlapping, adjacent, tied valid_from), both selection modes; clock walked across window boundaries; oracle: HMAC recomputed independently from the received request (method, escaped path, timestamp header, body) under the version the reference selection picks; no valid version => nothing reached the transport", 1200, 40000)
+	reg("C03", DispatchProfile{Backends: both, Interleave: true, Batchy: true},
+		"dispatcher part: single-target routes with concurrency 2-6 (micro-batches of up to 4 leases per worker), targets that hang to the deadline or answer just inside it, worker cycles sequential and interleaved; oracle: every message a worker's dequeue returns was offerable in the model (no unexpired lease of another worker), and unless the simulator stalled the worker every delivery starts and is settled before the worker's own lease runs out (the lease the dispatcher asks for covers a whole sequential micro-batch)", 1200, 40000)
 	reg("C07", DispatchProfile{Backends: both},
 		"push part: body received by the target equals the accepted payload, stored headers are passed on, across retries and redeliveries", 800, 30000)
 }
